@@ -255,7 +255,10 @@ pub fn run_seq_campaign(context: &CheckContext, campaign: &SeqCampaign) -> (Camp
     let nt = campaign.nt;
     let focus = context.property.clone();
     let run_case: Arc<dyn Fn(&SeqCase) -> CaseResult + Send + Sync> = Arc::new(move |case: &SeqCase| seq_case_result_focus(case, &policy, nt, &focus));
-    let (report, found) = run_campaign(context, campaign.name, "SEQ", campaign.rule, cases, { let params = campaign.params.clone(); Arc::new(move || seq_case_strategy(&params)) }, run_case);
+    // the thorough tier also explores larger cases: three times as many operations, a universe of up to 12 keys
+    let mut params = campaign.params.clone();
+    if context.tier == "thorough" { params.max_ops = (params.max_ops * 3).min(240); params.max_key = params.max_key.max(12); }
+    let (report, found) = run_campaign(context, campaign.name, "SEQ", campaign.rule, cases, Arc::new(move || seq_case_strategy(&params)), run_case);
     let violation = found.map(|(case, failure)| {
         let replay = Replay {
             property: context.property.clone(),
